@@ -70,6 +70,9 @@ var trList = []trFunc{
 	{"CodeTableOps", "table", "Table.DelRoute", "Table.DelRoute", false, false, []string{"recv"}, nil, ""},
 	{"CodeGuards", "destination", "New", "destination_New_guards", true, false, nil, nil, "guards"},
 	{"CodeGuards", "route", "NewGrafanaNet", "NewGrafanaNet_guards", true, false, nil, nil, "guards"},
+	{"CodeCfg", "cfg", "InitAggregation", "InitAggregation", false, true, nil, nil, ""},
+	{"CodeCfg", "cfg", "InitBlacklist", "InitBlacklist", false, true, nil, nil, ""},
+	{"CodeCfg", "cfg", "InitRewrite", "InitRewrite", false, true, nil, nil, ""},
 	{"CodeReadDest", "imperatives", "readDestination", "readDestination", true, true, []string{"param:s"}, nil, "(s.toks.length + 2)"},
 }
 
@@ -82,7 +85,7 @@ var leanTypes = map[string]string{
 	"*Matcher": "Matcher", "Matcher": "Matcher", "*Table": "Table", "*SendAllMatch": "SendAllMatch", "*SendFirstMatch": "SendFirstMatch",
 	"*Destination": "Destination", "*baseRoute": "baseRoute", "*ConsistentHasher": "ConsistentHasher", "*ConsistentHashing": "ConsistentHashing", "*Aggregator": "Aggregator", "*keepSafe": "keepSafe", "RW": "RW",
 	"time.Duration": "Int", "matcher.Matcher": "MatcherArgs", "GrafanaNetConfig": "GrafanaNetConfig",
-	"*regexp.Regexp": "Option RegexpI",
+	"*regexp.Regexp": "Option RegexpI", "Config": "Config",
 	"*toki.Scanner": "Scanner", "table.Interface": "TableI", "*destination.Destination": "DestP",
 	"route.Route": "RouteI", "*matcher.Matcher": "MatcherI", "*aggregator.Aggregator": "AggregatorI", "rewriter.RW": "RewriterI",
 }
@@ -101,7 +104,7 @@ func ignoredCall(s string) bool {
 }
 
 // methods whose call is an event of the trace
-var effectMethods = map[string]bool{"Inc": true, "Add": true}
+var effectMethods = map[string]bool{"Inc": true, "Add": true, "AddAggregator": true, "AddBlacklist": true, "AddRewriter": true}
 
 // methods of another component that have effects of their own: the callee's trace is spliced in (the interface record
 // gives them the type `... -> Res value`)
@@ -115,9 +118,9 @@ var envMethods = map[string]bool{"GetDestinationIndex": true}
 
 var libFuncs = map[string]string{
 	"bytes.HasPrefix": "Lib.bytes_HasPrefix", "bytes.Contains": "Lib.bytes_Contains", "bytes.IndexByte": "Lib.bytes_IndexByte",
-	"bytes.Fields": "Lib.bytes_Fields", "bytes.Join": "Lib.bytes_Join", "sort.Search": "Lib.sort_Search", "len": "Lib.len", "bytes.Replace": "Lib.bytes_Replace",
+	"bytes.Fields": "Lib.bytes_Fields", "bytes.Join": "Lib.bytes_Join", "sort.Search": "Lib.sort_Search", "len": "Lib.len", "bytes.Replace": "Lib.bytes_Replace", "strings.SplitN": "Lib.strings_SplitN",
 }
-var identityCalls = map[string]bool{"[]byte": true, "string": true, "int": true, "uint32": true, "int64": true, "uint16": true, "time.Duration": true}
+var identityCalls = map[string]bool{"[]byte": true, "string": true, "int": true, "uint32": true, "int64": true, "uint16": true, "uint": true, "time.Duration": true}
 
 // methods of a threaded object that yield a value and advance the object: `x := s.Next()` is `(x, s) := s.Next`
 var popMethods = map[string]bool{"Next": true}
@@ -463,7 +466,7 @@ func (c *trCtx) call(x *ast.CallExpr) string {
 	return ""
 }
 
-var pkgNames = map[string]bool{"toki": true, "matcher": true, "destination": true, "errors": true, "m20": true, "validate": true, "bytes": true, "sort": true, "strings": true, "fmt": true, "time": true,
+var pkgNames = map[string]bool{"aggregator": true, "rewriter": true, "toki": true, "matcher": true, "destination": true, "errors": true, "m20": true, "validate": true, "bytes": true, "sort": true, "strings": true, "fmt": true, "time": true,
 	"atomic": true, "regexp": true, "strconv": true, "math": true, "os": true, "sync": true}
 
 func isPkgName(s string) bool { return pkgNames[s] }
